@@ -342,6 +342,47 @@ def add_ions(text, rng, names, per=1, charges=None):
     return "\n".join(out) + "\nEND\n"
 
 
+def ring_ligand(text, hetero_positions=(0,), ion=None, resname="PYR"):
+    """a planar six-membered aromatic ring (nitrogen at the given ring positions, position 0 first) placed so that its first nitrogen accepts a
+    straight hydrogen bond (H...N 1.9 A) from the most exposed backbone N-H of the structure; optionally an ion 4.5 A beyond the ring"""
+    al = [l for l in text.splitlines() if l[:6] == "ATOM  "]
+    P = lambda l: [float(v) for v in structures.get_xyz(l)]
+    atoms = [P(l) for l in al]
+    res = [r for r in structures.residues(text) if r["tag"] == "ATOM  "]
+    L = text.splitlines()
+    best = None
+    for k in range(1, len(res)):
+        if res[k]["chain"] != res[k - 1]["chain"] or res[k]["name"] == "PRO":
+            continue
+        cur = {L[j][12:16].strip(): P(L[j]) for j in res[k]["lines"]}
+        prev = {L[j][12:16].strip(): P(L[j]) for j in res[k - 1]["lines"]}
+        if "N" not in cur or "CA" not in cur or "C" not in prev:
+            continue
+        n = cur["N"]
+        def unit(v):
+            m = math.sqrt(sum(x * x for x in v)); return [x / m for x in v]
+        u = unit([a + b for a, b in zip(unit([n[i] - prev["C"][i] for i in range(3)]), unit([n[i] - cur["CA"][i] for i in range(3)]))])
+        centre = [n[i] + (1.01 + 1.9 + 1.39) * u[i] for i in range(3)]
+        crowd = sum(1 for a in atoms if math.dist(a, centre) < 4.5)
+        if best is None or crowd < best[0]:
+            best = (crowd, n, u, centre, res[k])
+    crowd, n, u, centre, r = best
+    w = [1.0, 0.0, 0.0] if abs(u[0]) < 0.9 else [0.0, 1.0, 0.0]
+    v = [u[1] * w[2] - u[2] * w[1], u[2] * w[0] - u[0] * w[2], u[0] * w[1] - u[1] * w[0]]
+    m = math.sqrt(sum(x * x for x in v)); v = [x / m for x in v]
+    out = []
+    for k in range(6):
+        ang = math.pi + k * math.pi / 3          # position 0 points back at the backbone nitrogen
+        p = [centre[i] + 1.39 * (math.cos(ang) * u[i] + math.sin(ang) * v[i]) for i in range(3)]
+        el = "N" if k in hetero_positions else "C"
+        out.append(f"HETATM{9200 + k:>5d}  {el}{k + 1:<2d} {resname} L 501    {p[0]:8.3f}{p[1]:8.3f}{p[2]:8.3f}  1.00  0.00           {el}")
+    if ion:
+        p = [centre[i] + 4.5 * u[i] for i in range(3)]
+        out.append(f"HETATM 9210 {ion:<4s} {ion:>3s} L 502    {p[0]:8.3f}{p[1]:8.3f}{p[2]:8.3f}  1.00  0.00          {ion:>2s}")
+    body = "\n".join(l for l in text.splitlines() if l[:3] != "END")
+    return body + "\n" + "\n".join(out) + "\nEND\n", f"{r['name']}{r['num'].strip()}{r['chain']}"
+
+
 SWAP = {"ASP": ("LYS", {"CG": "CG", "OD1": "CD", "OD2": "NZ"}), "GLU": ("LYS", {"CG": "CG", "CD": "CD", "OE1": "CE", "OE2": "NZ"})}
 
 
@@ -401,6 +442,7 @@ def run(chk: common.Check):
 
     found = []
     cases = []
+    late_cfgs = []
     names = ["1HPX.pdb", "3SGB.pdb", "1FTJ-Chain-A.pdb"] + (["4DFR.pdb", "3SGB-subset.pdb", "sample-issue-140.pdb", "conf-alt-AB.pdb"] if chk.thorough else [])
     for n in names:
         cases.append((n, structures.read(n), []))
@@ -422,6 +464,16 @@ def run(chk: common.Check):
     ion_q = dict(_rpf(_lo(["x.pdb"]).parameters, propka.parameters.Parameters()).ions)
     for n in ["3SGB-subset.pdb"] + (["1HPX.pdb"] if chk.thorough else []):
         cases.append((f"{n} + every ion type, formal-charge field written", add_ions(structures.read(n), rng, ion_names, per=2 if chk.thorough else 1, charges=ion_q), []))
+    # a ligand BASE (aromatic ring nitrogen, type NAR) accepting a straight hydrogen bond from a backbone amide N-H; the same with two coupled
+    # ring nitrogens next to a calcium ion, also under shared_determinants 1 (covalently coupled groups share their determinants)
+    for n in ["sample-issue-140.pdb"] + (["3SGB-subset.pdb"] if chk.thorough else []):
+        t1, where = ring_ligand(structures.read(n))
+        cases.append((f"{n} + pyridine accepting the backbone N-H of {where}", t1, []))
+        t2, where = ring_ligand(structures.read(n), (0, 2), "CA")
+        cases.append((f"{n} + pyrimidine (two coupled ring nitrogens) at the N-H of {where} + Ca", t2, []))
+        shared_cfg = custom_cfg({"shared_determinants": "1"})
+        late_cfgs.append(shared_cfg)
+        cases.append((f"{n} + pyrimidine + Ca with shared_determinants 1", t2, ["-p", shared_cfg]))
     # an ensemble: the same model twice (the average over conformations is reported too)
     body = "\n".join(l for l in structures.read("3SGB-subset.pdb").splitlines() if structures.is_atom(l) or l[:3] == "TER")
     cases.append(("3SGB-subset.pdb as two identical MODELs", f"MODEL        1\n{body}\nENDMDL\nMODEL        2\n{body}\nENDMDL\nEND\n", []))
@@ -465,7 +517,7 @@ def run(chk: common.Check):
                 ndes += k
                 desdis += d
     finally:
-        for p in cfgs:
+        for p in cfgs + late_cfgs:
             os.unlink(p)
     chk.corr_stats["desolvation_slices_composed ~ radial_volume_desolvation"] = {"groups": ndes, "disagreements": len(desdis)}
     chk.cov["traces_validated_against_impl"] += ndes
